@@ -4,6 +4,7 @@ import (
 	"fmt"
 	"go/ast"
 	"go/types"
+	"golang.org/x/tools/go/packages"
 )
 
 // S-RSWHOLE: ReedSolomonEncoder.Encode and ReedSolomonDecoder.Decode folded, with every callee in the package folded from
@@ -96,94 +97,44 @@ func checkRSWhole(c *Ctx, r *Report) {
 		r.AnchorLost("S-RSWHOLE", "common/reedsolomon Encode/Decode", "method not found")
 		return
 	}
-	type dom struct {
-		g     *refGF
-		name  string
-		k, r  int
-		maxW  int // decoder: error weight explored (== r/2 unless stated)
-		words int // encoder: 0 = all size^k data words
-	}
 	gf16b1 := newRefGF(0x13, 16, 1)
 	gf16b0 := newRefGF(0x13, 16, 0)
 	qr := newRefGF(0x11D, 256, 0)
 	dm := newRefGF(0x12D, 256, 1)
-	encDoms := []dom{
-		{gf16b1, "GF(16)/0x13 base 1", 13, 2, 0, 300},
-		{gf16b1, "GF(16)/0x13 base 1", 1, 1, 0, 0}, {gf16b1, "GF(16)/0x13 base 1", 1, 3, 0, 0}, {gf16b1, "GF(16)/0x13 base 1", 2, 2, 0, 0}, {gf16b1, "GF(16)/0x13 base 1", 2, 4, 0, 0},
-		{gf16b0, "GF(16)/0x13 base 0", 2, 3, 0, 0},
-		{qr, "GF(256)/0x11D base 0", 1, 2, 0, 0}, {dm, "GF(256)/0x12D base 1", 1, 3, 0, 0},
+	gf1024 := newRefGF(0x409, 1024, 1)
+	gf4096 := newRefGF(0x1069, 4096, 1)
+	encDoms := []rsDom{
+		{g: gf1024, name: "GF(1024)/0x409 base 1", k: 1, r: 2},
+		{g: gf4096, name: "GF(4096)/0x1069 base 1", k: 2, r: 3, words: 4096 * 2},
+		{gf16b1, "GF(16)/0x13 base 1", 13, 2, 0, 300, nil},
+		{gf16b1, "GF(16)/0x13 base 1", 1, 1, 0, 0, nil}, {gf16b1, "GF(16)/0x13 base 1", 1, 3, 0, 0, nil}, {gf16b1, "GF(16)/0x13 base 1", 2, 2, 0, 0, nil}, {gf16b1, "GF(16)/0x13 base 1", 2, 4, 0, 0, nil},
+		{gf16b0, "GF(16)/0x13 base 0", 2, 3, 0, 0, nil},
+		{qr, "GF(256)/0x11D base 0", 1, 2, 0, 0, nil}, {dm, "GF(256)/0x12D base 1", 1, 3, 0, 0, nil},
 	}
-	decDoms := []dom{
-		{gf16b1, "GF(16)/0x13 base 1", 2, 2, 1, 0}, {gf16b1, "GF(16)/0x13 base 1", 2, 4, 2, 0},
-		{gf16b0, "GF(16)/0x13 base 0", 2, 4, 2, 0}, {gf16b0, "GF(16)/0x13 base 0", 3, 3, 1, 0},
+	decDoms := []rsDom{
+		{gf16b1, "GF(16)/0x13 base 1", 2, 2, 1, 0, nil}, {gf16b1, "GF(16)/0x13 base 1", 2, 4, 2, 0, nil},
+		{gf16b0, "GF(16)/0x13 base 0", 2, 4, 2, 0, nil}, {gf16b0, "GF(16)/0x13 base 0", 3, 3, 1, 0, nil},
+		// three errors (the Euclidean algorithm meets quotients of degree 2 and more): every value combination on four position sets
+		{g: gf16b1, name: "GF(16)/0x13 base 1 (positions {0,1,2} {0,3,6} {4,5,6} {1,3,5})", k: 1, r: 6, maxW: 3, sets: [][]int{{0, 1, 2}, {0, 3, 6}, {4, 5, 6}, {1, 3, 5}}},
 		// full-length words: k + r = |F| - 1
-		{gf16b1, "GF(16)/0x13 base 1", 13, 2, 1, 0}, {gf16b0, "GF(16)/0x13 base 0", 12, 3, 1, 0},
-		{qr, "GF(256)/0x11D base 0", 2, 2, 1, 0}, {dm, "GF(256)/0x12D base 1", 2, 3, 1, 0},
+		{gf16b1, "GF(16)/0x13 base 1", 13, 2, 1, 0, nil}, {gf16b0, "GF(16)/0x13 base 0", 12, 3, 1, 0, nil},
+		{qr, "GF(256)/0x11D base 0", 2, 2, 1, 0, nil}, {dm, "GF(256)/0x12D base 1", 2, 3, 1, 0, nil},
 	}
 	if c.Tier == "thorough" {
-		encDoms = append(encDoms, dom{gf16b1, "GF(16)/0x13 base 1", 3, 5, 0, 0}, dom{gf16b0, "GF(16)/0x13 base 0", 3, 2, 0, 0}, dom{qr, "GF(256)/0x11D base 0", 2, 4, 0, 0})
-		decDoms = append(decDoms, dom{gf16b1, "GF(16)/0x13 base 1", 1, 5, 2, 0}, dom{gf16b1, "GF(16)/0x13 base 1", 4, 4, 2, 0}, dom{gf16b0, "GF(16)/0x13 base 0", 1, 6, 3, 0}, dom{qr, "GF(256)/0x11D base 0", 3, 4, 1, 0}, dom{dm, "GF(256)/0x12D base 1", 3, 4, 1, 0})
+		encDoms = append(encDoms, rsDom{gf16b1, "GF(16)/0x13 base 1", 3, 5, 0, 0, nil}, rsDom{gf16b0, "GF(16)/0x13 base 0", 3, 2, 0, 0, nil}, rsDom{qr, "GF(256)/0x11D base 0", 2, 4, 0, 0, nil})
+		decDoms = append(decDoms, rsDom{gf16b1, "GF(16)/0x13 base 1", 1, 5, 2, 0, nil}, rsDom{gf16b1, "GF(16)/0x13 base 1", 4, 4, 2, 0, nil}, rsDom{gf16b0, "GF(16)/0x13 base 0", 1, 6, 3, 0, nil}, rsDom{qr, "GF(256)/0x11D base 0", 3, 4, 1, 0, nil}, rsDom{dm, "GF(256)/0x12D base 1", 3, 4, 1, 0, nil})
 	}
 	hooks := func() *rpf {
 		h := &rpf{unroll: 100000, maxSteps: 2000000, env: map[types.Object]*Val{}}
-		h.callHook = func(rr *rpf, call *ast.CallExpr, callee types.Object) (*Val, bool) { return errCtorHook(rr, call, callee) }
+		h.callHook = func(rr *rpf, call *ast.CallExpr, callee types.Object) (*Val, bool) {
+			return errCtorHook(rr, call, callee)
+		}
 		return h
 	}
 	totalFolds := 0
 	defer func() { r.Extra("S-RSWHOLE folds", totalFolds) }()
 	// ---- encoder
-	for _, d := range encDoms {
-		key := fmt.Sprintf("common/reedsolomon.ReedSolomonEncoder.Encode %s k=%d r=%d", d.name, d.k, d.r)
-		r.Analysed(key)
-		field := d.g.fieldVal()
-		enc := &Val{K: VStruct, Ptr: true, Local: true, Fields: map[string]*Val{"field": field, "cachedGenerators": {K: VList, Local: true, L: []*Val{field.Fields["one"]}}}}
-		total := 1
-		for i := 0; i < d.k && total < 1<<24; i++ {
-			total *= d.g.size
-		}
-		if d.words > 0 {
-			total = d.words // a full-length shape: a structured family of data words (every symbol value at every position)
-		}
-		bad := ""
-		folds := 0
-		for w := 0; w < total && bad == ""; w++ {
-			data := make([]int, d.k)
-			if d.words > 0 {
-				// word w: value (w % size) at position (w / size) % k, a second value two places on
-				data[(w/d.g.size)%d.k] = w % d.g.size
-				data[(w/d.g.size+2)%d.k] ^= (w*7 + 3) % d.g.size
-			} else {
-				for i, x := 0, w; i < d.k; i++ {
-					data[d.k-1-i] = x % d.g.size
-					x /= d.g.size
-				}
-			}
-			word := localInts(append(append([]int{}, data...), make([]int, d.r)...))
-			// stale parity area: Encode must overwrite all of it
-			for i := d.k; i < d.k+d.r; i++ {
-				word.L[i] = vint(int64((w + i) % d.g.size))
-			}
-			h := hooks()
-			h.env[recvObj(ep, efd)] = enc
-			res, err := c.rpfCall(efd, ep, []*Val{word, vint(int64(d.r))}, h)
-			folds++
-			if err != nil {
-				bad = "?" + err.Error()
-				break
-			}
-			if len(res) != 1 || res[0].K != VNil {
-				bad = fmt.Sprintf("Encode(%v, %d) reports an error", data, d.r)
-				break
-			}
-			got, ok := listInts(word)
-			want := append(append([]int{}, data...), d.g.parity(data, d.r)...)
-			if !ok || fmt.Sprint(got) != fmt.Sprint(want) {
-				bad = fmt.Sprintf("Encode(%v, %d) leaves %v; data followed by the remainder of x^%d d(x) modulo the generator is %v", data, d.r, got, d.r, want)
-			}
-		}
-		totalFolds += folds
-		reportFold(r, c, "S-RSWHOLE", key, efd.Pos(), bad)
-	}
+	totalFolds += rsEncodeFolds(c, r, "S-RSWHOLE", efd, ep, encDoms, hooks)
 	// ---- decoder
 	for _, d := range decDoms {
 		key := fmt.Sprintf("common/reedsolomon.ReedSolomonDecoder.Decode %s k=%d r=%d weight<=%d", d.name, d.k, d.r, d.maxW)
@@ -241,6 +192,31 @@ func checkRSWhole(c *Ctx, r *Report) {
 			if ci == 1 && c.Tier != "thorough" && d.maxW >= 2 && d.g.size == 16 && d.k+d.r > 6 {
 				continue
 			}
+			if d.sets != nil {
+				// every combination of non-zero error values on each of the listed position sets
+				for _, set := range d.sets {
+					vals := make([]int, len(set))
+					for i := range vals {
+						vals[i] = 1
+					}
+					for bad == "" {
+						try(cw, set, vals)
+						i := 0
+						for i < len(vals) {
+							vals[i]++
+							if vals[i] < d.g.size {
+								break
+							}
+							vals[i] = 1
+							i++
+						}
+						if i == len(vals) {
+							break
+						}
+					}
+				}
+				continue
+			}
 			rec(cw, 0, nil, nil)
 		}
 		totalFolds += folds
@@ -276,7 +252,9 @@ func checkRSAccept(c *Ctx, r *Report, rule string, doms []rsAcceptDom) {
 			}
 			word := localInts(rcv)
 			h := &rpf{unroll: 100000, maxSteps: 2000000, env: map[types.Object]*Val{}}
-			h.callHook = func(rr *rpf, call *ast.CallExpr, callee types.Object) (*Val, bool) { return errCtorHook(rr, call, callee) }
+			h.callHook = func(rr *rpf, call *ast.CallExpr, callee types.Object) (*Val, bool) {
+				return errCtorHook(rr, call, callee)
+			}
 			h.env[recvObj(dp, dfd)] = dec
 			res, err := c.rpfCall(dfd, dp, []*Val{word, vint(int64(d.r))}, h)
 			folds++
@@ -320,4 +298,92 @@ type rsAcceptDom struct {
 	g    *refGF
 	name string
 	n, r int
+}
+
+// rsEncodeFolds folds Encode over the given domains under the given rule name; returns the number of folds.
+func rsEncodeFolds(c *Ctx, r *Report, rule string, efd *ast.FuncDecl, ep *packages.Package, encDoms []rsDom, hooks func() *rpf) int {
+	totalFolds := 0
+	for _, d := range encDoms {
+		key := fmt.Sprintf("common/reedsolomon.ReedSolomonEncoder.Encode %s k=%d r=%d", d.name, d.k, d.r)
+		r.Analysed(key)
+		field := d.g.fieldVal()
+		enc := &Val{K: VStruct, Ptr: true, Local: true, Fields: map[string]*Val{"field": field, "cachedGenerators": {K: VList, Local: true, L: []*Val{field.Fields["one"]}}}}
+		total := 1
+		for i := 0; i < d.k && total < 1<<24; i++ {
+			total *= d.g.size
+		}
+		if d.words > 0 {
+			total = d.words // a full-length shape: a structured family of data words (every symbol value at every position)
+		}
+		bad := ""
+		folds := 0
+		for w := 0; w < total && bad == ""; w++ {
+			data := make([]int, d.k)
+			if d.words > 0 {
+				// word w: value (w % size) at position (w / size) % k, a second value two places on
+				data[(w/d.g.size)%d.k] = w % d.g.size
+				data[(w/d.g.size+2)%d.k] ^= (w*7 + 3) % d.g.size
+			} else {
+				for i, x := 0, w; i < d.k; i++ {
+					data[d.k-1-i] = x % d.g.size
+					x /= d.g.size
+				}
+			}
+			word := localInts(append(append([]int{}, data...), make([]int, d.r)...))
+			// stale parity area: Encode must overwrite all of it
+			for i := d.k; i < d.k+d.r; i++ {
+				word.L[i] = vint(int64((w + i) % d.g.size))
+			}
+			h := hooks()
+			h.env[recvObj(ep, efd)] = enc
+			res, err := c.rpfCall(efd, ep, []*Val{word, vint(int64(d.r))}, h)
+			folds++
+			if err != nil {
+				bad = "?" + err.Error()
+				break
+			}
+			if len(res) != 1 || res[0].K != VNil {
+				bad = fmt.Sprintf("Encode(%v, %d) reports an error", data, d.r)
+				break
+			}
+			got, ok := listInts(word)
+			want := append(append([]int{}, data...), d.g.parity(data, d.r)...)
+			if !ok || fmt.Sprint(got) != fmt.Sprint(want) {
+				bad = fmt.Sprintf("Encode(%v, %d) leaves %v; data followed by the remainder of x^%d d(x) modulo the generator is %v", data, d.r, got, d.r, want)
+			}
+		}
+		totalFolds += folds
+		reportFold(r, c, rule, key, efd.Pos(), bad)
+	}
+	return totalFolds
+}
+
+// checkRSEncodeQR: the QR convention (GF(256)/0x11D, generator base 0) and the small base-0 field, for C07 / C01.
+func checkRSEncodeQR(c *Ctx, r *Report) {
+	r.Rule("S-RSENC", "ReedSolomonEncoder.Encode, folded from source with the generator cache and the GenericGFPoly arithmetic it calls, leaves the data in place and appends exactly the remainder of x^r d(x) by the generator with roots alpha^0..alpha^(r-1) - the QR convention - for every data word of GF(256)/0x11D with (k, r) = (1, 2) and (1, 7) and of GF(16)/0x13 base 0 with (2, 3), starting from stale parity slots (a remainder with leading zero coefficients is right-aligned)", 3)
+	efd, ep := c.funcDeclOf("common/reedsolomon", "ReedSolomonEncoder.Encode")
+	if efd == nil {
+		r.AnchorLost("S-RSENC", "common/reedsolomon.ReedSolomonEncoder.Encode", "method not found")
+		return
+	}
+	qr := newRefGF(0x11D, 256, 0)
+	gf16b0 := newRefGF(0x13, 16, 0)
+	hooks := func() *rpf {
+		h := &rpf{unroll: 100000, maxSteps: 2000000, env: map[types.Object]*Val{}}
+		h.callHook = func(rr *rpf, call *ast.CallExpr, callee types.Object) (*Val, bool) {
+			return errCtorHook(rr, call, callee)
+		}
+		return h
+	}
+	n := rsEncodeFolds(c, r, "S-RSENC", efd, ep, []rsDom{{qr, "GF(256)/0x11D base 0", 1, 2, 0, 0, nil}, {qr, "GF(256)/0x11D base 0", 1, 7, 0, 0, nil}, {gf16b0, "GF(16)/0x13 base 0", 2, 3, 0, 0, nil}}, hooks)
+	r.Extra("S-RSENC folds", n)
+}
+
+type rsDom struct {
+	g     *refGF
+	name  string
+	k, r  int
+	maxW  int     // decoder: error weight explored (== r/2 unless stated)
+	words int     // encoder: 0 = all size^k data words
+	sets  [][]int // decoder: when set, only error patterns whose positions are exactly one of these sets (every value combination)
 }
